@@ -99,6 +99,9 @@ pub enum Act {
     Deliver { a: usize, b: usize, rank: usize },
     /// controller only: LinkIter::deliver_all on the link a-b
     DeliverAll(usize, usize),
+    /// several calls back to back: from the Sim handle with no step in between, from host code
+    /// within one poll (no await, no other send in between)
+    Seq(Vec<Act>),
 }
 
 impl Act {
@@ -118,6 +121,7 @@ impl Act {
             Act::Mark(..) => "links_mark",
             Act::Deliver { .. } => "deliver",
             Act::DeliverAll(..) => "deliver_all",
+            Act::Seq(..) => "seq",
         }
     }
     pub fn sels(&self) -> Option<(&Sel, &Sel)> {
@@ -159,6 +163,7 @@ impl Act {
     pub fn max_host(&self) -> usize {
         match self {
             Act::Mark(a, b) | Act::DeliverAll(a, b) | Act::Deliver { a, b, .. } => *a.max(b),
+            Act::Seq(v) => v.iter().map(|a| a.max_host()).max().unwrap_or(0),
             _ => self.sels().map(|(a, b)| a.max_host().max(b.max_host())).unwrap_or(0),
         }
     }
@@ -636,9 +641,16 @@ async fn acceptor(ctx: Ctx, me: usize, l: TcpListener) {
 
 async fn host_act(ctx: Ctx, me: usize, a: HostAct) {
     sleep_until_ms(a.at_ms).await;
-    ctx.ev(Some(me), hnow(), EvKind::Act(a.act.clone()));
-    if let Err(e) = apply_from_host(&a.act, ctx.net.cfg.ipv6) {
-        ctx.ev(Some(me), hnow(), EvKind::IoErr(e));
+    // a sequence is executed within this one poll: nothing else runs in between
+    let acts: Vec<Act> = match &a.act {
+        Act::Seq(v) => v.clone(),
+        other => vec![other.clone()],
+    };
+    for act in acts {
+        ctx.ev(Some(me), hnow(), EvKind::Act(act.clone()));
+        if let Err(e) = apply_from_host(&act, ctx.net.cfg.ipv6) {
+            ctx.ev(Some(me), hnow(), EvKind::IoErr(e));
+        }
     }
 }
 
@@ -693,6 +705,12 @@ fn snapshot(sim: &Sim<'_>, ctx: &Ctx) -> Vec<LinkSnap> {
 fn apply_from_ctl(sim: &Sim<'_>, ctx: &Ctx, act: &Act, marks: &mut BTreeMap<(usize, usize), Vec<Listed>>) {
     let v6 = ctx.net.cfg.ipv6;
     let t = us(sim.elapsed());
+    if let Act::Seq(v) = act {
+        for a in v {
+            apply_from_ctl(sim, ctx, a, marks);
+        }
+        return;
+    }
     match act {
         Act::Sample => {
             let snap = snapshot(sim, ctx);
@@ -756,7 +774,7 @@ fn apply_from_ctl(sim: &Sim<'_>, ctx: &Ctx, act: &Act, marks: &mut BTreeMap<(usi
                 }
             });
         }
-        Act::Sample | Act::Deliver { .. } => unreachable!(),
+        Act::Sample | Act::Deliver { .. } | Act::Seq(..) => unreachable!(),
     }
 }
 
@@ -1075,6 +1093,28 @@ pub fn shrink_net(net: &Net) -> Vec<Net> {
         let mut c = net.clone();
         c.hacts.remove(i);
         out.push(c);
+    }
+    for i in 0..net.script.len() {
+        if let Act::Seq(v) = &net.script[i].1 {
+            for j in 0..v.len() {
+                let mut c = net.clone();
+                if let Act::Seq(w) = &mut c.script[i].1 {
+                    w.remove(j);
+                }
+                out.push(c);
+            }
+        }
+    }
+    for i in 0..net.hacts.len() {
+        if let Act::Seq(v) = &net.hacts[i].act {
+            for j in 0..v.len() {
+                let mut c = net.clone();
+                if let Act::Seq(w) = &mut c.hacts[i].act {
+                    w.remove(j);
+                }
+                out.push(c);
+            }
+        }
     }
     // connections are numbered by position: remove only the last one, empty the others
     if !net.conns.is_empty() {
